@@ -120,6 +120,7 @@ Definition row_ok (c : curve_row) : bool :=
       (Z.of_N (last_byte (c_gy c) mod 2) =? (n_gy k) mod 2)%Z &&
       bytes_eqb (c_seed c) (n_seed k) &&
       negb (is_nil (c_display c)) && prefix_of (c_name c) (c_display c) &&
+      bytes_eqb (first_word (c_display c)) (c_name c) &&
       on_curve k
   | None => false
   end.
@@ -166,7 +167,8 @@ Qed.
 Lemma row_ok_spec : forall c, row_ok c = true ->
   exists k, nist (c_name c) = Some k /\ row_is c k /\ curve_equation k /\
             (Z.of_N (last_byte (c_gy c) mod 2) = (n_gy k) mod 2)%Z /\
-            c_display c <> [] /\ prefix_of (c_name c) (c_display c) = true.
+            c_display c <> [] /\ prefix_of (c_name c) (c_display c) = true /\
+            first_word (c_display c) = c_name c.
 Proof.
   intros c H. unfold row_ok in H. destruct (nist (c_name c)) as [k|]; [|discriminate].
   exists k. split; [reflexivity|].
@@ -192,9 +194,16 @@ Lemma table_genuine : forall c, In c table ->
   exists k, nist (c_name c) = Some k /\ row_is c k /\ curve_equation k.
 Proof. exact (table_genuine_gen table rows_ok_now). Qed.
 
-Lemma table_complete : forall nm k, nist nm = Some k -> exists c, In c table /\ c_name c = nm.
+Lemma all_present_now : all_present table = true.
+Proof. vm_compute. reflexivity. Qed.
+
+Lemma keys_distinct_now : keys_distinct table = true.
+Proof. vm_compute. reflexivity. Qed.
+
+Lemma table_complete_gen : forall t, all_present t = true ->
+  forall nm k, nist nm = Some k -> exists c, In c t /\ c_name c = nm.
 Proof.
-  intros nm k H.
+  intros t T nm k H.
   assert (Hin : In nm nist_names).
   { unfold nist in H. unfold nist_names.
     repeat match type of H with
@@ -202,11 +211,13 @@ Proof.
         let E := fresh "E" in destruct (bytes_eqb a b) eqn:E;
         [apply bytes_eqb_eq in E; subst; cbn [In]; tauto |]
     end. discriminate. }
-  pose proof table_ok_now as T. unfold table_ok in T.
-  apply andb_prop in T. destruct T as [_ T]. unfold all_present in T.
+  unfold all_present in T.
   rewrite forallb_forall in T. specialize (T nm Hin). apply existsb_exists in T.
   destruct T as [c [Hc E]]. apply bytes_eqb_eq in E. eauto.
 Qed.
+
+Lemma table_complete : forall nm k, nist nm = Some k -> exists c, In c table /\ c_name c = nm.
+Proof. exact (table_complete_gen table all_present_now). Qed.
 
 Lemma nist_cases : forall nm k, nist nm = Some k ->
   (nm = bs "P-224" /\ k = nist_p224) \/ (nm = bs "P-256" /\ k = nist_p256) \/
@@ -470,6 +481,46 @@ Proof.
   cbn [option_map]. auto.
 Qed.
 
+(* ================= the executable spec (T3) accepts whatever the model infers ================= *)
+
+Lemma firstn_len_app : forall (x y : bytes), firstn (length x) (x ++ y) = x.
+Proof. induction x as [|a x IH]; intros y; cbn [length firstn app]; [destruct y; reflexivity | rewrite IH; reflexivity]. Qed.
+
+Lemma skipn_len_app : forall (x y : bytes), skipn (length x) (x ++ y) = y.
+Proof. induction x as [|a x IH]; intros y; cbn [length skipn app]; [reflexivity | apply IH]. Qed.
+
+Lemma base_point_is_generator : forall k base, base_point_is k base -> base_is_generator k base = true.
+Proof.
+  intros k base [[x [y [Hb [Hlx [Hly [Hx Hy]]]]]]|[pre [x [Hb [Hpre [Hlx [Hx Hs]]]]]]]; subst base.
+  - cbn [base_is_generator]. rewrite <- Hlx at 2 3. rewrite firstn_len_app, skipn_len_app.
+    rewrite app_length, Hlx, Hly, Hx, Hy, !Z.eqb_refl.
+    replace (Nat.eqb (n_flen k + n_flen k) (2 * n_flen k)) with true; [reflexivity|].
+    symmetry. apply Nat.eqb_eq. lia.
+  - destruct Hpre; subst pre; cbn [base_is_generator N.eqb Pos.eqb orb andb];
+      rewrite Hlx, Hx, Nat.eqb_refl, Z.eqb_refl; cbn [andb]; apply Z.eqb_eq; exact Hs.
+Qed.
+
+Lemma exact_spec : forall k p, exact k p ->
+  spec_components true k (p_prime p) (p_a p) (p_b p) (p_base p) (p_order p) = true.
+Proof.
+  intros k p [_ [Hp [_ [Ha [_ [Hb [Ho Hbase]]]]]]].
+  unfold spec_components. rewrite Hp, Ha, Hb, Ho, !Z.eqb_refl.
+  rewrite (base_point_is_generator k _ Hbase). reflexivity.
+Qed.
+
+Lemma shown_passes_spec : forall p shown, curve_name p = Ok shown -> shown <> [] ->
+  shown_ok shown (p_prime p) (p_a p) (p_b p) (p_base p) (p_order p) = true.
+Proof.
+  intros p shown H Hne. unfold curve_name, curve_name_gen, bind in H.
+  destruct (infer_row_gen has_f5 has_f6 table p) as [r| |] eqn:E; try discriminate.
+  inversion H as [H1]. destruct r as [c|]; [|congruence].
+  change has_f6 with true in E.
+  destruct (infer_row_exact table has_f5 p c rows_ok_now E) as [Hin [k [Hn [Hx _]]]].
+  pose proof rows_ok_now as T. rewrite forallb_forall in T.
+  destruct (row_ok_spec c (T c Hin)) as [k' [Hn' [_ [_ [_ [_ [_ Hfw]]]]]]].
+  unfold shown_ok. rewrite Hfw, Hn. apply exact_spec. exact Hx.
+Qed.
+
 (* ================= the genuine parameters are recognised ================= *)
 
 Definition fe (k : curve_consts) (z : Z) : bytes := N_to_be (n_flen k) (Z.to_N z).
@@ -512,33 +563,15 @@ Definition shows_inferred (nm : bytes) (r : result info) : bool :=
 Definition container_forms : list (N * bool) :=
   [(0, false); (1, false); (2, false); (0, true); (1, true); (2, true); (3, true)].
 
-Definition genuine_sweep : bool :=
-  forallb (fun nm =>
-    match nist nm with
-    | Some k =>
-        forallb (fun compressed => forallb (fun with_seed => forallb (fun form =>
-          shows_inferred nm (container_info (fst form) (snd form) 2 (genuine_params k compressed with_seed 1)))
-          container_forms) [false; true]) [false; true]
-    | None => false
-    end) nist_names.
-
-Lemma genuine_sweep_ok : genuine_sweep = true.
-Proof. vm_compute. reflexivity. Qed.
-
 Lemma genuine_reported : forall nm k compressed with_seed form, nist nm = Some k ->
   In form container_forms ->
   shows_inferred nm (container_info (fst form) (snd form) 2 (genuine_params k compressed with_seed 1)) = true.
 Proof.
   intros nm k compressed with_seed form H Hf.
-  pose proof genuine_sweep_ok as S. unfold genuine_sweep in S. rewrite forallb_forall in S.
-  assert (Hin : In nm nist_names).
-  { destruct (nist_cases nm k H) as [[E _]|[[E _]|[[E _]|[E _]]]]; subst nm; cbn; tauto. }
-  specialize (S nm Hin). rewrite H in S.
-  rewrite forallb_forall in S. specialize (S compressed).
-  assert (Hc : In compressed [false; true]) by (destruct compressed; cbn; tauto).
-  specialize (S Hc). rewrite forallb_forall in S. specialize (S with_seed).
-  assert (Hs : In with_seed [false; true]) by (destruct with_seed; cbn; tauto).
-  specialize (S Hs). rewrite forallb_forall in S. exact (S form Hf).
+  unfold container_forms in Hf. cbn [In] in Hf.
+  destruct (nist_cases nm k H) as [[E1 E2]|[[E1 E2]|[[E1 E2]|[E1 E2]]]]; subst nm k;
+    destruct compressed, with_seed;
+    repeat (destruct Hf as [Hf|Hf]; [subst form; vm_compute; reflexivity|]); contradiction.
 Qed.
 
 (* ================= refutation witnesses on the code before the repairs ================= *)
